@@ -28,14 +28,14 @@ import (
 
 // LCase is one fault scenario.
 type LCase struct {
-	Kind   string   `json:"kind"`   // "fault" | "lockorder"
-	Burst  []uint64 `json:"burst"`  // ids of the requests queued (one operation each)
-	Side   string   `json:"side"`   // send | recv | none
-	K      int      `json:"k"`      // message index of the fault
-	Inject string   `json:"inject"` // send: probe; recv: server (status from the server) | probe (RecvMsg fails)
-	Code   int      `json:"code"`   // gRPC status code of the fault
-	Mode   string   `json:"mode"`   // close | reset
-	Slow   bool     `json:"slow"`   // send side: the failing Send is slow (the application gets ahead)
+	Kind   string   `json:"kind"`           // "fault" | "lockorder"
+	Burst  []uint64 `json:"burst"`          // ids of the requests queued (one operation each)
+	Side   string   `json:"side"`           // send | recv | none
+	K      int      `json:"k"`              // message index of the fault
+	Inject string   `json:"inject"`         // send: probe; recv: server (status from the server) | probe (RecvMsg fails)
+	Code   int      `json:"code"`           // gRPC status code of the fault
+	Mode   string   `json:"mode"`           // close | reset
+	Slow   bool     `json:"slow"`           // send side: the failing Send is slow (the application gets ahead)
 	Iter   int      `json:"iter,omitempty"` // lockorder: repetitions
 }
 
